@@ -456,6 +456,28 @@ def run(rep, ctx):
         g1.check(src is not None and src["k"] == "CXXMemberCallExpr" and src.get("callee", "").split("::")[-1] == base and
                  render(call_args(src)[0]) == g.params[0]["name"], "wrapper|%s" % w, short_loc(g.loc), "%s returns %s of its argument" % (w, base))
 
+    # ---- D1: the reported domain is the approximated one ---------------------------------------------
+    d1 = rep.rule("C13.D1", "FLOW", "the domain reported to the caller (grDomOut) and the ends used for the breakpoints (lbx_, ubx_) are taken after every clipping of the graph domain", floor=3)
+    cf = one("ClipFuncGraphDomain")
+    muts = [c for c in cf.walk() if c["k"] == "CXXMemberCallExpr" and ((c.get("callee") or "").endswith("::intersect") and "grDom" in render(call_object(c)) or
+                                                                        (c.get("callee") or "").endswith("::ClipWithFunctionValues"))]
+    outs = [n for n in cf.walk() if n["k"] in ("BinaryOperator", "CXXOperatorCallExpr") and n.get("op") == "=" and
+            render((kids(n) if n["k"] == "BinaryOperator" else call_args(n))[0]).replace(" ", "").replace("this->", "") == "laPrm_.grDomOut"]
+    ends = [n for n in cf.walk() if n["k"] == "BinaryOperator" and n.get("op") == "=" and render(kids(n)[0]).replace("this->", "") in ("lbx_", "ubx_")]
+    okd = len(muts) >= 2 and len(outs) == 1 and render((kids(outs[0]) if outs[0]["k"] == "BinaryOperator" else call_args(outs[0]))[1]).replace(" ", "").replace("this->", "") == "laPrm_.grDom"
+    d1.check(okd and all(not cf.cfg.before(outs[0], m) for m in muts) and all(cf.cfg.before(m, outs[0]) or cf.cfg.facts_at(m) for m in muts), "reported-after-clipping", short_loc(cf.loc),
+             "grDomOut = grDom is assigned after intersect() and ClipWithFunctionValues()",
+             "grDomOut is assigned before the graph domain is clipped for the last time: the caller narrows x only to the wider domain while the breakpoints cover the clipped one, so the PL function is extrapolated over part of the reported domain")
+    refs = {v["name"]: render(kids(v)[0]).replace(" ", "").replace("this->", "") for v in cf.walk() if v["k"] == "VarDecl" and kids(v)}
+    oke = len(ends) == 2 and refs.get("lbx") == "laPrm_.grDom.lbx" and refs.get("ubx") == "laPrm_.grDom.ubx" and \
+        sorted(render(kids(n)[1]) for n in ends) == ["lbx", "ubx"] and all(not cf.cfg.before(e_, m) for e_ in ends for m in muts)
+    lv = [v for v in cf.walk() if v["k"] == "VarDecl" and v.get("name") in ("lbx", "ubx")]
+    oke = oke and all((v.get("ct") or v.get("t") or "").rstrip().endswith("&") for v in lv)
+    d1.check(oke, "ends-after-clipping", short_loc(cf.loc), "lbx_ / ubx_ are read from grDom (by reference) after the clipping")
+    cw = one("ClipWithFunctionValues")
+    par = cw.params[0] if cw.params else {}
+    d1.check((par.get("ct") or "").rstrip().endswith("&") and "const" not in (par.get("ct") or ""), "clip-in-place", short_loc(cw.loc), "ClipWithFunctionValues narrows the domain it is given in place")
+
     # ---- P1: periodic decomposition x = period*n + remainder -------------------------------------
     p1 = rep.rule("C13.P1", "FLOW", "periodic functions: period length = length of the default period; x = period*factor + remainder with the remainder in the approximated range", floor=5)
     ip = one("InitPeriodic")
